@@ -204,7 +204,7 @@ func (c *ctx) evalLayer(base, a, s int, txs []LTx, src string, emit bool) {
 	}
 	term := fmt.Sprintf("CL %d %d %s %s (%s, %s, %s) %d", c.layerID, blockStart(base, a, s), hlib.CoqList(bl), hlib.CoqList(vs),
 		coqZi(ot.layers[0]), coqZi(ot.layers[1]), coqZi(ot.layers[2]), ot.final)
-	c.cw.Add(term, cj)
+	c.addOld(term, cj)
 	c.rep.TracesValidated++
 	c.rep.Count("layer:coq-case")
 	c.layerID++
